@@ -89,6 +89,9 @@ fn dispatch(st: &mut State, line: &str) -> String {
         "sha512" => crypto::cmd_sha512(rest),
         "envelope" => misc::cmd_envelope(rest),
         "envdec" => misc::cmd_envdec(rest),
+        "kmsunwrap" => misc::cmd_kmsunwrap(rest),
+        "kmsput" => misc::cmd_kmsput(rest),
+        "aeadopen" => misc::cmd_aeadopen(rest),
         "stats" => misc::cmd_stats(rest),
         "merge" => misc::cmd_merge(rest),
         "grease" => misc::cmd_grease(rest),
